@@ -177,7 +177,31 @@ def generatedHandle (srv : Server) (mid : Nat) (extract : Option Exc) (u : User)
           | .single isObject => if shape = .good ∨ isObject then enc else .raised .other
           | .multi => if shape = .good then enc else .raised .other
 
+/-- which user method the generated `handle()` ends up awaiting — the id of its table entry — or `none` when no
+    user code runs at all: unknown method id (the `if method_id in self.methods` test fails), unsupported method,
+    or parameters that cannot be read from the body. `method_id` is the 32-bit value of the request, compared
+    as it is: ids that merely *alias* an entry under some narrowing (`k | 0x8000`, `k + 2^16`, …) find nothing. -/
+def invoked (srv : Server) (mid : Nat) (extract : Option Exc) : Option Nat :=
+  match findMethod mid srv.methods with
+  | none => none
+  | some m => if m.supported && extract.isNone then some m.id else none
+
+/-- `self.servers[protocol]`: the server object a request is dispatched to (the driver's table of registered servers) -/
+def findServer (p : Nat) : List Server → Option Server
+  | [] => none
+  | s :: r => if s.protocol = p then some s else findServer p r
+
+/-- the whole dispatch of one decoded request: (protocol of the server whose `handle()` is entered, the method id
+    it is entered with, the user method that then runs). `none` = no server registered: nothing is entered. -/
+def dispatch (tbl : List Server) (req : Msg) (extract : Option Exc) : Option (Nat × Nat × Option Nat) :=
+  match findServer req.protocol tbl, req.method with
+  | some srv, some mid => some (srv.protocol, mid, invoked srv mid extract)
+  | _, _ => none
+
 def registryOf (l : List Server) : Registry := l.map fun s => (s.protocol, s.noresponse)
+
+/-- all method ids of the table are below 2^15 (generated obligation `method_ids_fit`) -/
+def Server.methodIdsFit (s : Server) : Bool := s.methods.all fun m => decide (m.id < 32768)
 
 /-- linear checkers for the generated obligations -/
 def natsDistinct : List Nat → Bool
